@@ -29,8 +29,6 @@ HYP_TOL = 1e-10     # named hypotheses on the real grids
 INV_TOL = 1e-10     # relative T_ref dependence of a total tendency
 RES_TOL = 1e-9      # measured cloud residual vs its closed form
 RES_MIN = 1e-7      # the cloud residual is "really non-zero"
-LINEAR_CEILING = 0.2   # known findings on linear grids (aliasing-level T_ref dependence, recorded 2e-4 .. 5e-2 of the
-                       # total tendency): anything above this ceiling is NOT the known finding but a gross new dependence
 NEG_MIN = 1e-3      # negative control: an unmasked 'clipped' array must violate `roundtrip` at least this much
 CLASSES = ('dry', 'time', 'moist', 'cloud')
 GROUPS = dict(vorticity='momentum', divergence='momentum', temperature_variation='temperature',
@@ -616,11 +614,6 @@ def _sentinel(ctx, E, shared, validated):
             # product_rule_resolved is not validated on this kind of grid: T4.3 does not apply; the dependence is
             # the one of the moist class (a cloud class without condensate is the moist class)
             key = f'tref-dependence:moist:{kind}:{grp}'
-        if (grp == 'momentum' and name in MOIST_LIKE and kind not in pr_kinds and np.isfinite(v)
-            and v > LINEAR_CEILING):
-          # the known findings on grids that do not resolve the product rule are aliasing-level (recorded 2e-4..5e-2):
-          # a dependence above the ceiling is something else and must not be absorbed by the known-finding key
-          key = f'tref-dependence-gross:{name}:{kind}:{grp}'
         measured[(name, kind, grp)] = max(measured.get((name, kind, grp), 0.0), v)
         ctx.expect(np.isfinite(v) and v <= INV_TOL, key,
                    f'explicit+implicit {grp} tendency of the {name} class depends on the reference temperature: relative '
@@ -655,8 +648,7 @@ def _sentinel(ctx, E, shared, validated):
     # (iii) grids that do NOT resolve the product rule (linear): the cloud-class dependence is a known finding there, but
     # it is not free: the condensate enters through the flux-form term only, so the dependence of the cloud class MINUS
     # the dependence of the same state without condensate (= the moist class, aliasing included) is again the closed form
-    # of cloud_split_residual, to rounding.  Only the aliasing-level dependence of the moist class itself stays bounded
-    # by LINEAR_CEILING alone.
+    # of cloud_split_residual, to rounding.  The aliasing-level dependence of the moist class itself is pinned in (iv).
     if kind not in pr_kinds and 'cloud' in tots_by_name and 'cloud-no-condensate' in tots_by_name:
       tc, tn_ = tots_by_name['cloud'], tots_by_name['cloud-no-condensate']
       sec2, R = grid.sec2_lat, specs.R
@@ -738,8 +730,10 @@ def _sentinel(ctx, E, shared, validated):
             'R·|ΔT_ref|·|q_l+q_i|·|lap ln ps| | mismatch to the measured difference: ' +
             ', '.join(f'{k} (amplitude {a:g}): {s:.1e} | {nt:.1e} | {m:.1e}' for k, a, s, nt, m in res_seen))
   ctx.notes.append('cloud_split_residual: ' + detail)
-  ctx.notes.append('linear grids (known findings, bounded): moist-type momentum dependence above LINEAR_CEILING = '
-                   f'{LINEAR_CEILING} is reported under tref-dependence-gross:* (not a known finding); cloud minus '
+  ctx.notes.append('linear grids (known findings, bounded): the UNEXPLAINED part of the moist-type momentum dependence is '
+                   f'bounded by {RES_TOL:g} of the total tendency (keys moist-aliasing-mismatch:*, cloud-residual-mismatch:*: '
+                   'not known findings); a ceiling on the raw magnitude is not used (the legitimate aliasing term reaches '
+                   '1e-1 of the total tendency for weak winds, measured in the thorough tier). Cloud minus '
                    'cloud-without-condensate dependence vs closed form (mismatch): ' +
                    (', '.join(f'{k} (amplitude {a:g}): {m:.1e}' for k, a, m in lin_res_seen) or 'no such scenario') +
                    '; moist-class dependence vs the defect of the product-rule laws (size | mismatch): ' +
